@@ -156,3 +156,31 @@ Proof.
   split; [now apply Nat.eqb_eq|].
   intros k Hkr. rewrite forallb_forall in Hk. apply Qeq_bool_eq. apply Hk. apply in_seq. lia.
 Qed.
+
+(* ---- unbounded: density of the tall tree, and the Taylor property derived from the conditions ---- *)
+Lemma tall_gamma k : 1 <= k -> (gamma (tall k) == qfact k)%Q.
+Proof.
+  induction k as [|k IH]; intros Hk; [lia|].
+  destruct k as [|k']; [vm_compute; reflexivity|].
+  change (tall (S (S k'))) with (Gr Tau (tall (S k'))).
+  unfold gamma at 1. cbn [cprod].
+  change (qm (inject_Z (Z.of_nat (order (tall (S k'))))) (cprod (tall (S k')))) with (gamma (tall (S k'))).
+  rewrite !qm_ok. rewrite IH by lia.
+  cbn [order]. rewrite tall_order by lia.
+  unfold qfact. change (fact (S (S k'))) with (S (S k') * fact (S k')).
+  rewrite Nat2Z.inj_mul, inject_Z_mult. change (1 + S k') with (S (S k')).
+  change (cprod Tau) with 1%Q. ring.
+Qed.
+
+(* the Taylor property of the constant-coefficient expansion is a consequence of the Butcher conditions on
+   tall trees: derived, not assumed *)
+Lemma ti_coeff_taylor_from_conditions :
+  forall t, In t methods ->
+  forall b row p, In (b, row) (combine (t_b t) (ti_coeff t)) -> In (b, p) (rows t) ->
+  forall k, 1 <= k <= t_stage t -> k <= p -> (nth k row 0 * qfact k == 1)%Q.
+Proof.
+  intros t Ht b row p Hin Hrow k Hk Hp.
+  destruct (ti_coeff_tall_all t Ht) as [_ H]. destruct (H b row Hin) as [_ Hw].
+  rewrite (Hw k Hk). rewrite <- (tall_gamma k) by lia.
+  apply (order_conditions_all t Ht b p (tall k) Hrow). rewrite tall_order by lia. exact Hp.
+Qed.
